@@ -397,6 +397,16 @@ func (bn *baseNode) setOwner(uid, gid int) {
 	if gid != -1 {
 		bn.gid = gid
 	}
+
+	// As chown(2) does, whatever the new owner : a file that is not a directory loses its set-user-ID bit,
+	// and its set-group-ID bit when it is executable by its group.
+	if !bn.mode.IsDir() {
+		bn.mode &^= fs.ModeSetuid
+
+		if bn.mode&0o010 != 0 {
+			bn.mode &^= fs.ModeSetgid
+		}
+	}
 }
 
 // Unlock unlocks the node.
